@@ -27,6 +27,8 @@ PS = ['P0', 'P1', 'P2', 'P3']
 QSRC = ['files', 'list'] + [f'sig:{p}' for p in PS]
 RSRC = ['files', 'list', 'use-db', 'square'] + [f'sig:{p}' for p in PS]
 OPTS = ['none', 'k-only', 'p-only'] + [f'kp:{p}' for p in PS] + ['kp:DEF']      # explicit options that spell out the default are still explicit
+# the same options spelled in the other order (prefix before k, long option name) and placed after the source options instead of before them
+OPTS += [f'pk:{p}' for p in PS] + [f'late-kp:{p}' for p in PS] + [f'late-pk:{p}' for p in PS] + ['late-k-only', 'late-p-only']
 
 
 def plan(tier, seed):
@@ -45,6 +47,7 @@ def all_cases():
 
 
 def opt_args(o):
+	o = o[5:] if o.startswith('late-') else o
 	if o == 'none':
 		return [], None, True
 	if o == 'k-only':
@@ -53,6 +56,8 @@ def opt_args(o):
 		return ['-p', 'AC'], None, False
 	p = o.split(':')[1]
 	k, pre = clifix.PARAMS[p]
+	if o.startswith('pk:'):
+		return ['--prefix', pre, '-k', str(k)], p, True
 	return ['-k', str(k), '-p', pre], p, True
 
 
@@ -160,7 +165,9 @@ def _run_case(sh, fx, d, case, pre):
 	# dist
 	args = ['-d', fx.dbdir, 'dist', '--no-progress', '-o', out]
 	oa, pe, complete = opt_args(c)
-	args += oa
+	late = c.startswith('late-')
+	if not late:
+		args += oa
 	pq = pr = None
 	if a == 'files':
 		for l in QL:
@@ -185,6 +192,8 @@ def _run_case(sh, fx, d, case, pre):
 	else:
 		pr = b.split(':')[1]
 		args += ['--rs', fx.rsig[pr]]
+	if late:
+		args += oa
 	code, stdout, exc, err = fixtures.run_cli(args)
 	sh.evals += 1
 	wrote = _wrote(out, pre)
